@@ -19,9 +19,15 @@ io/RegistryFacts.vos io/RegistryFacts.vok io/RegistryFacts.required_vos: io/Regi
 card/Markup.vo card/Markup.glob card/Markup.v.beautified card/Markup.required_vo: card/Markup.v base/PyStr.vo base/Json.vo base/Corr.vo
 card/Markup.vio: card/Markup.v base/PyStr.vio base/Json.vio base/Corr.vio
 card/Markup.vos card/Markup.vok card/Markup.required_vos: card/Markup.v base/PyStr.vos base/Json.vos base/Corr.vos
+card/MarkupFacts.vo card/MarkupFacts.glob card/MarkupFacts.v.beautified card/MarkupFacts.required_vo: card/MarkupFacts.v base/PyStr.vo base/PyStrFacts.vo base/Json.vo card/Markup.vo
+card/MarkupFacts.vio: card/MarkupFacts.v base/PyStr.vio base/PyStrFacts.vio base/Json.vio card/Markup.vio
+card/MarkupFacts.vos card/MarkupFacts.vok card/MarkupFacts.required_vos: card/MarkupFacts.v base/PyStr.vos base/PyStrFacts.vos base/Json.vos card/Markup.vos
 card/Parser.vo card/Parser.glob card/Parser.v.beautified card/Parser.required_vo: card/Parser.v base/PyStr.vo base/Json.vo card/Markup.vo card/ParserCard.vo
 card/Parser.vio: card/Parser.v base/PyStr.vio base/Json.vio card/Markup.vio card/ParserCard.vio
 card/Parser.vos card/Parser.vok card/Parser.required_vos: card/Parser.v base/PyStr.vos base/Json.vos card/Markup.vos card/ParserCard.vos
 card/ParserCard.vo card/ParserCard.glob card/ParserCard.v.beautified card/ParserCard.required_vo: card/ParserCard.v base/PyStr.vo base/Json.vo card/Markup.vo
 card/ParserCard.vio: card/ParserCard.v base/PyStr.vio base/Json.vio card/Markup.vio
 card/ParserCard.vos card/ParserCard.vok card/ParserCard.required_vos: card/ParserCard.v base/PyStr.vos base/Json.vos card/Markup.vos
+card/ParserFacts.vo card/ParserFacts.glob card/ParserFacts.v.beautified card/ParserFacts.required_vo: card/ParserFacts.v base/PyStr.vo base/PyStrFacts.vo base/Json.vo card/Markup.vo card/MarkupFacts.vo card/ParserCard.vo card/Parser.vo
+card/ParserFacts.vio: card/ParserFacts.v base/PyStr.vio base/PyStrFacts.vio base/Json.vio card/Markup.vio card/MarkupFacts.vio card/ParserCard.vio card/Parser.vio
+card/ParserFacts.vos card/ParserFacts.vok card/ParserFacts.required_vos: card/ParserFacts.v base/PyStr.vos base/PyStrFacts.vos base/Json.vos card/Markup.vos card/MarkupFacts.vos card/ParserCard.vos card/Parser.vos
